@@ -137,4 +137,25 @@ theorem snapRound_clamped_pmf (lam c s B : ℝ) (hl : 0 < lam) (k : ℤ) (h1 : -
   simp only [mem_preimage, mem_singleton_iff]
   exact truncate_eq_interior _ _ _ _ h1 h2
 
+/-- `_truncate` is 1-Lipschitz -/
+theorem truncate_lipschitz (lo hi a b : ℝ) (h : lo ≤ hi) : |truncate lo hi a - truncate lo hi b| ≤ |a - b| := by
+  unfold truncate
+  split_ifs <;> (rw [abs_le]; constructor <;> cases abs_cases (a - b) <;> linarith)
+
+/-- post-processing a Laplace variable: the ratio `e^{Δ/b}` of the Laplace laws survives any measurable map -/
+theorem lapMeasure_map_ratio (post : ℝ → ℝ) (hpost : Measurable post) (b c c' Δ : ℝ) (hb : 0 < b) (hc : |c - c'| ≤ Δ)
+    (S : Set ℝ) (hS : MeasurableSet S) :
+    (Cont.lapMeasure b c).map post S ≤ ENNReal.ofReal (Real.exp (Δ / b)) * (Cont.lapMeasure b c').map post S := by
+  rw [Measure.map_apply hpost hS, Measure.map_apply hpost hS]
+  exact Cont.lapMeasure_ratio b c c' Δ hb hc _ (hpost hS)
+
+/-- the model's effective epsilon is at most epsilon (`η = 2^-53`, `bound ≥ 0`, `ε ≥ 0`) -/
+theorem snapEffEps_le (eps B : ℝ) (he : 0 ≤ eps) (hB : 0 ≤ B) : snapEffEps eps B ≤ eps := by
+  unfold snapEffEps epsneg
+  simp only [bits_ldexp, Nat.cast_one, one_mul, Nat.cast_ofNat]
+  have hη : (0:ℝ) < (2:ℝ) ^ (-53 : ℤ) := by positivity
+  have hden : (0:ℝ) < 1 + 12 * B * (2:ℝ) ^ (-53 : ℤ) := by positivity
+  rw [div_le_iff₀ hden]
+  nlinarith [mul_nonneg (mul_nonneg hB hη.le) he]
+
 end DPL.SmpS
